@@ -532,7 +532,7 @@ def main(argv=None):
         traceback.print_exc()
         print(f"CHECKER-FAILURE property={prop} contract file does not load")
         return 3
-    idxs = list(range(len(mod.CASES))) if args.case is None else [args.case]
+    idxs = [i for i, c in enumerate(mod.CASES) if tier in getattr(c, "tiers", (tier,))] if args.case is None else [args.case]
     gen_jobs = [(prop, i, tier, args.src_root) for i in idxs]
     ctxm = mp.get_context("fork")
     nproc = max(1, args.jobs)
